@@ -1,5 +1,51 @@
 /-
-  C12 -- the WRITER side of the comment round trip.
+  C12 -- the WRITER side of the comment round trip, and its composition with the reader side (`C12read`).
+
+  Property C12: "every line comment and block comment of a native source appears in the written output with its exact
+  text, line comments in their original relative order and at their original nesting level; the output always begins
+  with a header block comment: the source's own if it has one, otherwise the default".
+
+  Main statements (all for the native flavour):
+
+    M1  `fmt_labelled_is_layout`, `fmt_labelled_items`, `lays_entriesX`
+          the raw output `fmtEntries .native lvl D` for a dict with comment placeholder entries is an admissible layout
+          of `xtoksEs lvl D`; a placeholder entry `PH ↦ PH` is written as the line `<indent>PH<pad>PH;` with
+          `pad` = `max 8 (30 - |PH| - 4·lvl)` blanks (`XTok.ph`, `padOf`)
+    M2  `subP_layX` (one `re.sub` on a layout), `insertLine_layX`, `insertBlock_layX`, `block_stage`,
+        `insert_comments_layout`, `insert_comments_spreadC`
+          `insert_block_comments` / `insert_line_comments` replace every placeholder line by its comment, literally;
+          the result is `spreadC (ctoksItems (docSD sd)) ([] :: gaps) "\n"` with `GapsOKC … ("\n" :: gaps) "\n"`
+        `write_commented`     the same after `remove_trailing_spaces`, for every SDict with `WOK sd`
+    M3  `C12_write_commented` `fmtSD .native (denC c items) = some (spreadC (ctoksItems (writtenDoc items)) ([] :: gaps) "\n")`
+          under `HW c items`; `writtenDoc items` = default header (unless the document has its own) ++ `canonItems items`;
+          `denC_closed` (`denC c items = sdOf c items`: one entry per item, comments in the tables)
+    M4  `C12_roundtrip_commented`   reading the written text (any valid counter) gives `denC c₂ (writtenDoc items)`;
+          `skel_cnormI`, `writtenDoc_top`: every comment of every level is there, at its place among the entries of
+          its level; at top level the block comments stand first, in their order (the writer hoists them)
+        `parseNative_nl`      a line feed in front of a text does not matter to the reader
+    M5  `exW_hw`, `exW_written`, `exW_layout`, `exW_roundtrip`   non-vacuity, the written text by evaluation
+    negative witnesses: `trailing_ws_lost` (finding: trailing white space of a comment is not written),
+        `placeholder_in_comment_rewritten`; `C12.D28_header_inside_subdict`, `C12.D32_second_comment_lost`
+
+  The canonical rule (by evaluation of the model and by `docEs` / `hoistPlaceholders`): per dict level the entries and
+  comments keep their order, except that at the TOP level all block comments are moved in front (in their order);
+  keys and scalars are respelled by the writer (`cnormI`).  `_clean` removes, per level and per kind, every comment
+  entry whose text equals that of an earlier one of the level; the theorems here assume that no level repeats a
+  comment (`levelOK`, `lvlI`), in which case `_clean` changes nothing (`clean_fix`).
+
+  Hypotheses `HW c items` (all decidable but the counter's validity):
+    `wf`     `CSrcWFItems 1 items` (hypothesis of the reader side)
+    `ok`     keys and scalars in the value domain of C01 (`isDomKey`, `isDomScalar`, `domXs`), and for every comment:
+             `lineTextOK` / `blockTextOK`: no trailing white space on any line and no carriage return (otherwise
+             `remove_trailing_spaces` changes the text: `trailing_ws_lost`), no word `LINECOMMENTdddddd` /
+             `BLOCKCOMMENTdddddd` inside (otherwise a later insertion pass rewrites it: `placeholder_in_comment_rewritten`)
+    `lev`, `levs`  at every level: typed keys pairwise distinct (a later duplicate key overwrites the earlier entry and
+             the comments inside it), no line comment twice, no block comment twice
+    `nLine`, `nBlock`, `hc`  at most `counterLimit + 1` line comments (ids distinct), at most 10^6 block comments,
+             a counter state that can occur
+    `first`  the first block comment of the document stands at the top level (else D28)
+    `indep`  no block comment text occurs inside the concatenation of the block comments written before it (the first
+             one completed by the default header) — exactly the test `bc in sofar` of `insert_block_comments` (else D32)
 -/
 import DictIO.Props.C12read
 import DictIO.Props.C12hdr
@@ -435,6 +481,19 @@ theorem lays_entriesX : ∀ (d lvl : Nat) (D : Entries), wshEs d D = true → La
           (padOf_ws _ _) (padOf_ne _ _)
         have := h0.append h4
         simpa [xtoksEs, hp, fmtEntries, C01.text_word, C01.writtenLit_text, C01.formatKey_eq_keyStr h1.1.1, padOf] using this
+
+/-- **M1 `fmt_labelled_is_layout`.**  For a dict whose leaf entries are comment placeholder entries `PH ↦ PH` or lie in
+    the value domain (`wshEs`), the raw output of the writer at indentation level `lvl` is an admissible layout
+    (`okX .cov`: white-space gaps, adjacent non-delimiter tokens separated, every placeholder line preceded by white
+    space and followed by a line feed — the first gap of the text excepted) of the token stream `xtoksEs lvl D`: the
+    tokens of the written document, in which every placeholder entry is the single token
+    `PH ++ pad ++ PH ++ ";"`, `pad` = `max 8 (30 - |PH| - 4·lvl)` blanks, on a line of its own. -/
+theorem fmt_labelled_is_layout (d lvl : Nat) (D : Entries) (h : wshEs d D = true) :
+    ∃ lay tail, lay.map Prod.snd = xtoksEs lvl D ∧ fmtEntries .native lvl D = layX lay tail ∧ okX .cov lay = true ∧
+      tail.all isWs = true := by
+  rcases lays_entriesX d lvl D h with ⟨hx, ht⟩ | ⟨_, lay, hm, htxt, ok, htl⟩
+  · exact ⟨[], [], by rw [hx]; rfl, by rw [ht]; rfl, rfl, rfl⟩
+  · exact ⟨lay, ['\n'], hm, htxt, ok, htl⟩
 
 /-! ## 3. substituting a comment for its placeholder line, on a layout (M2) -/
 
@@ -1840,11 +1899,24 @@ theorem ctoks_hdr (B : Tbl Str) (doc : List CItem) :
   · rfl
   · simp only [List.singleton_append, ctoksItems, List.map_cons, List.map_nil, toC_hdr]
 
-/-- **the writer on an SDict with comments** (generic form of M3): the text is a layout of the document `docSD sd`
-    that starts with its first token; with a line feed put in front, the layout is admissible (`GapsOKC`) -/
-theorem write_commented (sd : SD) (h : WOK sd) :
-    ∃ gaps, fmtSD .native sd = some (spreadC (ctoksItems (docSD sd)) ([] :: gaps) ['\n']) ∧
-      GapsOKC (ctoksItems (docSD sd)) (['\n'] :: gaps) ['\n'] = true := by
+/-- the tokens of the final text -/
+def finalToks (sd : SD) : List XTok :=
+  hdrToks sd.blockC ++ (xtoksEs 0 (hoistPlaceholders sd.data)).map (finalTok sd.lineC sd.blockC)
+
+theorem finalToks_doc (sd : SD) (h : WOK sd) : (finalToks sd).map toC = ctoksItems (docSD sd) := by
+  rw [finalToks, docSD, ctoks_hdr, ctoks_doc sd.lineC sd.blockC 0 _ h.cov]
+  simp only [List.map_append, List.map_map]
+  rfl
+
+/-- **M2, layout form.**  After `insert_block_comments` and `insert_line_comments` the raw output is a layout in which
+    every placeholder line `PH<pad>PH;` has become its comment (the first block comment completed by the default
+    header, written as a block comment of its own in front, unless it is a header itself; with no block comment at all
+    the default header stands first): first gap empty, final gap one line feed, admissible, every token solid. -/
+theorem insert_comments_layout (sd : SD) (h : WOK sd) :
+    ∃ t r, ((([] : Str), t) :: r).map Prod.snd = finalToks sd ∧
+      insertLineComments sd.lineC (insertBlockComments .native sd.blockC
+        (fmtEntries .native 0 (hoistPlaceholders sd.data))) = layX (([], t) :: r) ['\n'] ∧
+      okX .cov (([], t) :: r) = true ∧ ∀ p ∈ (([] : Str), t) :: r, Solid p.2.text ∧ WellC p.2 := by
   obtain ⟨t1, r1, hm1, htxt1, ok1⟩ := block_stage sd.lineC sd.blockC (hoistPlaceholders sd.data) h.shape h.cov h.blockT
     h.bNodup h.bPres h.first h.indep
   have hxok := xtoks_ok sd.lineC sd.blockC 1 0 (hoistPlaceholders sd.data) h.shape h.cov
@@ -1870,48 +1942,78 @@ theorem write_commented (sd : SD) (h : WOK sd) :
     · rw [e]; exact tokInv_stage1 h.blockT (hxok x hx)
   have hline := insertLine_layX sd.lineC (([], t1) :: r1) .cov ['\n'] ok1 (by decide) hinv1
     (fun e he => ⟨(h.lineT e he).1, by obtain ⟨_, _, _, _, hno⟩ := (h.lineT e he).2; exact hno⟩)
-  -- the tokens after both passes
-  have hsol : ∀ p ∈ (([], t1) :: r1).map (fun p => (p.1, substTokT true sd.lineC p.2)),
-      Solid p.2.text ∧ WellC p.2 := by
-    intro p hp
-    obtain ⟨q, hq, rfl⟩ := List.mem_map.mp hp
-    rcases hmem1 q hq with e | ⟨x, hx, e⟩
-    · simp only [e, substTokT]
-      exact ⟨solid_block hdr_blockFull, wellC_block hdr_blockFull⟩
-    · simp only [e]
-      exact final_tok_facts h.lineT h.blockT (hxok x hx)
-  obtain ⟨l', hrts, hm', ok', hfirst'⟩ := removeTrailing_layX _ .cov (by rw [okX_mapT]; exact ok1)
-    (fun p hp => (hsol p hp).1)
-  obtain ⟨rf, hl'⟩ := hfirst' (substTokT true sd.lineC t1) (r1.map fun p => (p.1, substTokT true sd.lineC p.2)) rfl
-  have hw' : ∀ p ∈ l', WellC p.2 := by
-    intro p hp
-    have : p.2 ∈ ((([], t1) :: r1).map (fun p => (p.1, substTokT true sd.lineC p.2))).map Prod.snd := by
-      rw [← hm']; exact List.mem_map_of_mem hp
-    obtain ⟨q, hq, e⟩ := List.mem_map.mp this
-    rw [← e]; exact (hsol q hq).2
-  -- the tokens of the final text are the tokens of the document
-  have htoks : l'.map (fun p => toC p.2) = ctoksItems (docSD sd) := by
-    have e1 : l'.map (fun p => toC p.2) = (l'.map Prod.snd).map toC := by simp [List.map_map, Function.comp]
-    have hm2 : l'.map Prod.snd = (hdrToks sd.blockC ++
-        (xtoksEs 0 (hoistPlaceholders sd.data)).map (substTokT false sd.blockC)).map (substTokT true sd.lineC) := by
-      rw [hm', ← hm1]
+  refine ⟨substTokT true sd.lineC t1, r1.map fun p => (p.1, substTokT true sd.lineC p.2), ?_, ?_, ?_, ?_⟩
+  · have e2 : ((([] : Str), substTokT true sd.lineC t1) :: r1.map fun p => (p.1, substTokT true sd.lineC p.2)).map Prod.snd =
+        (((([] : Str), t1) :: r1).map Prod.snd).map (substTokT true sd.lineC) := by
       simp [List.map_map, Function.comp]
-    rw [e1, hm2, docSD, ctoks_hdr, ctoks_doc sd.lineC sd.blockC 0 _ h.cov]
-    simp only [List.map_append, List.map_map]
+    rw [e2, hm1, finalToks, List.map_append, List.map_map]
     congr 1
     simp only [hdrToks]
     split
     · rfl
     · simp [substTokT]
-  refine ⟨rf.map Prod.fst, ?_, ?_⟩
-  · have hfmt : fmtSD .native sd = some (removeTrailingSpaces (insertLineComments sd.lineC
-        (insertBlockComments .native sd.blockC (fmtEntries .native 0 (hoistPlaceholders sd.data))))) := by
-      simp only [fmtSD, h.incl, insertIncludes, List.foldl_nil]
-    rw [hfmt, htxt1, hline, hrts, layX_spreadC l' _ hw', htoks, hl']
-    rfl
-  · have := gapsOKC_top rf [] (substTokT true sd.lineC t1) (by rw [← hl']; exact ok') (by rw [← hl']; exact hw')
-    rw [← hl', htoks] at this
+  · rw [htxt1, hline]; rfl
+  · have := okX_mapT true sd.lineC (([], t1) :: r1) .cov
+    rw [ok1] at this
     exact this
+  · intro p hp
+    have hp' : p ∈ (([], t1) :: r1).map (fun p => (p.1, substTokT true sd.lineC p.2)) := hp
+    obtain ⟨q, hq, rfl⟩ := List.mem_map.mp hp'
+    rcases hmem1 q hq with e | ⟨x, hx, e⟩
+    · simp only [e, substTokT]
+      exact ⟨solid_block hdr_blockFull, wellC_block hdr_blockFull⟩
+    · simp only [e]
+      exact final_tok_facts h.lineT h.blockT (hxok x hx)
+
+/-- a layout with empty first gap and final line feed, as `spreadC` / `GapsOKC` -/
+theorem layout_to_spreadC (t : XTok) (r : List (Str × XTok)) (ok : okX .cov (([], t) :: r) = true)
+    (hw : ∀ p ∈ (([] : Str), t) :: r, WellC p.2) :
+    layX (([], t) :: r) ['\n'] = spreadC ((t :: r.map Prod.snd).map toC) ([] :: r.map Prod.fst) ['\n'] ∧
+    GapsOKC ((t :: r.map Prod.snd).map toC) (['\n'] :: r.map Prod.fst) ['\n'] = true := by
+  have e : (([], t) :: r).map (fun p => toC p.2) = (t :: r.map Prod.snd).map toC := by
+    simp [List.map_map, Function.comp]
+  constructor
+  · rw [layX_spreadC _ _ hw, e]; rfl
+  · have := gapsOKC_top r [] t ok hw
+    rw [e] at this
+    exact this
+
+/-- **M2 `insert_comments_spreadC`.**  The text after both insertion passes is a layout of the document `docSD sd`
+    (`spreadC (ctoksItems …)`), admissible (`GapsOKC`) once a line feed is put in front. -/
+theorem insert_comments_spreadC (sd : SD) (h : WOK sd) :
+    ∃ gaps, insertLineComments sd.lineC (insertBlockComments .native sd.blockC
+        (fmtEntries .native 0 (hoistPlaceholders sd.data))) = spreadC (ctoksItems (docSD sd)) ([] :: gaps) ['\n'] ∧
+      GapsOKC (ctoksItems (docSD sd)) (['\n'] :: gaps) ['\n'] = true := by
+  obtain ⟨t, r, hm, htxt, ok, hs⟩ := insert_comments_layout sd h
+  obtain ⟨h1, h2⟩ := layout_to_spreadC t r ok (fun p hp => (hs p hp).2)
+  have e : (t :: r.map Prod.snd).map toC = ctoksItems (docSD sd) := by
+    rw [← finalToks_doc sd h, ← hm]; rfl
+  rw [e] at h1 h2
+  exact ⟨r.map Prod.fst, htxt.trans h1, h2⟩
+
+/-- **the writer on an SDict with comments** (generic form of M3): the text is a layout of the document `docSD sd`
+    that starts with its first token; with a line feed put in front, the layout is admissible (`GapsOKC`) -/
+theorem write_commented (sd : SD) (h : WOK sd) :
+    ∃ gaps, fmtSD .native sd = some (spreadC (ctoksItems (docSD sd)) ([] :: gaps) ['\n']) ∧
+      GapsOKC (ctoksItems (docSD sd)) (['\n'] :: gaps) ['\n'] = true := by
+  obtain ⟨t, r, hm, htxt, ok, hs⟩ := insert_comments_layout sd h
+  obtain ⟨l', hrts, hm', ok', hfirst'⟩ := removeTrailing_layX _ .cov ok (fun p hp => (hs p hp).1)
+  obtain ⟨rf, hl'⟩ := hfirst' t r rfl
+  have hw' : ∀ p ∈ (([] : Str), t) :: rf, WellC p.2 := by
+    intro p hp
+    rw [← hl'] at hp
+    have : p.2 ∈ ((([] : Str), t) :: r).map Prod.snd := by rw [← hm']; exact List.mem_map_of_mem hp
+    obtain ⟨q, hq, e⟩ := List.mem_map.mp this
+    rw [← e]; exact (hs q hq).2
+  obtain ⟨h1, h2⟩ := layout_to_spreadC t rf (by rw [← hl']; exact ok') hw'
+  have e : (t :: rf.map Prod.snd).map toC = ctoksItems (docSD sd) := by
+    rw [← finalToks_doc sd h, ← hm, ← hm', hl']; rfl
+  rw [e] at h1 h2
+  refine ⟨rf.map Prod.fst, ?_, h2⟩
+  have hfmt : fmtSD .native sd = some (removeTrailingSpaces (insertLineComments sd.lineC
+      (insertBlockComments .native sd.blockC (fmtEntries .native 0 (hoistPlaceholders sd.data))))) := by
+    simp only [fmtSD, h.incl, insertIncludes, List.foldl_nil]
+  rw [hfmt, htxt, hrts, hl', h1]
 
 /-! ## 11. placeholder words and the library's own recognisers -/
 
@@ -3103,6 +3205,23 @@ theorem sdOf_fix : levelFix (sdOf c items) (treeOf c items) ∧ subsFix (sdOf c 
   exact ⟨levelFix_tree (sdOf c items) items _ [] 0 1 h1 h2 h3 (by have := H.nBlock; omega) H.ok (lkL_own H) (lkB_own H) H.lev,
     subsFix_treeI (sdOf c items) items _ [] 0 1 h1 h2 h3 (by have := H.nBlock; omega) H.ok (lkL_own H) (lkB_own H) H.levs⟩
 
+/-- the data the reader's stages produce for the labelled document: one entry per item, in order -/
+theorem den_label_tree : denPEs (labelCItems { counter := c } items).2 [] = treeOf c items := by
+  obtain ⟨hfix, hsub⟩ := sdOf_fix H
+  have e : treeOf c items = dTreeI (alloc Gen.counterLimit (lineFullsI items).length c ++ []) 0 items := by
+    rw [List.append_nil]; rfl
+  have := den_treeI items { counter := c } [] 1 [] H.wf
+    (by
+      show KNodup (dTreeI (alloc Gen.counterLimit (lineFullsI items).length c ++ []) 0 items)
+      rw [← e]; exact hfix.2.2.2)
+    (by
+      show allLevels KNodup (dTreeI (alloc Gen.counterLimit (lineFullsI items).length c ++ []) 0 items)
+      rw [← e]; exact allLevels_imp (fun D h => h.2.2.2) hsub)
+    (by intro k _ h; cases h)
+  rw [this]
+  show [] ++ dTreeI (alloc Gen.counterLimit (lineFullsI items).length c ++ []) 0 items = treeOf c items
+  rw [← e]; rfl
+
 /-- **`denC` in closed form**: the reader's SDict for the document is `sdOf c items` -/
 theorem denC_closed : denC c items = sdOf c items := by
   obtain ⟨hfix, hsub⟩ := sdOf_fix H
@@ -3117,24 +3236,21 @@ theorem denC_closed : denC c items = sdOf c items := by
   have hB : (labelCItems { counter := c } items).1.blockC = blockTblOf items := by
     rw [hst]
     simp [stAfter, blockTblOf]
-  have hD : denPEs (labelCItems { counter := c } items).2 [] = treeOf c items := by
-    have e : treeOf c items = dTreeI (alloc Gen.counterLimit (lineFullsI items).length c ++ []) 0 items := by
-      rw [List.append_nil]; rfl
-    have := den_treeI items { counter := c } [] 1 [] H.wf
-      (by
-        show KNodup (dTreeI (alloc Gen.counterLimit (lineFullsI items).length c ++ []) 0 items)
-        rw [← e]; exact hfix.2.2.2)
-      (by
-        show allLevels KNodup (dTreeI (alloc Gen.counterLimit (lineFullsI items).length c ++ []) 0 items)
-        rw [← e]; exact allLevels_imp (fun D h => h.2.2.2) hsub)
-      (by intro k _ h; cases h)
-    rw [this]
-    show [] ++ dTreeI (alloc Gen.counterLimit (lineFullsI items).length c ++ []) 0 items = treeOf c items
-    rw [← e]; rfl
   have : denC c items = (SD.mk (denPEs (labelCItems { counter := c } items).2 []) []
       (labelCItems { counter := c } items).1.lineC (labelCItems { counter := c } items).1.blockC []).clean := rfl
-  rw [this, hL, hB, hD]
+  rw [this, hL, hB, den_label_tree H]
   exact clean_fix (sdOf c items) hfix hsub
+
+/-- M1 for the labelled document itself: the raw output for the data of a commented document -/
+theorem fmt_labelled_items (lvl : Nat) :
+    ∃ lay tail, lay.map Prod.snd = xtoksEs lvl (denPEs (labelCItems { counter := c } items).2 []) ∧
+      fmtEntries .native lvl (denPEs (labelCItems { counter := c } items).2 []) = layX lay tail ∧
+      okX .cov lay = true ∧ tail.all isWs = true := by
+  rw [den_label_tree H]
+  obtain ⟨h1, h2, h3⟩ := lineIds_facts H
+  have eD : treeOf c items = dTreeI (lineIds c items ++ []) 0 items := by rw [List.append_nil]; rfl
+  exact fmt_labelled_is_layout 1 lvl _ (by
+    rw [eD]; exact wsh_treeI items _ [] 0 1 h1 h3 (by have := H.nBlock; omega) H.ok)
 
 end
 
@@ -3849,5 +3965,141 @@ theorem C12_roundtrip_commented {c c₂ : Counter} {items : List CItem} (dir : S
       simp [spreadC, spread]
     rw [hct, e, parseNative_nl] at hread
     exact hread
+
+/-! ## 21. M5: non-vacuity -/
+
+/-- `/* C++ my header */⏎ // first⏎ a 1;⏎ // second⏎ sub { // inner⏎ p "two words"; }` -/
+def exW : List CItem :=
+  [ .blockC " C++ my header ".toList,
+    .lineC " first".toList,
+    .entry "a".toList (.lit (.bare "1".toList)),
+    .lineC " second".toList,
+    .entry "sub".toList (.dict [.lineC " inner".toList, .entry "p".toList (.lit (.quoted '"' "two words".toList))]) ]
+
+/-- the hypotheses of M3 / M4 hold for it -/
+theorem exW_hw : HW none exW :=
+  ⟨⟨by decide +kernel, by decide +kernel, by decide +kernel, by decide +kernel, by decide +kernel, by decide +kernel,
+    Or.inl rfl⟩, by decide +kernel, by decide +kernel⟩
+
+/-- the data of the SDict the reader returns for it, block-comment entries hoisted (here: already in front) -/
+def exWData : Entries :=
+  [ (.str "BLOCKCOMMENT000000".toList, .leaf (.str "BLOCKCOMMENT000000".toList)),
+    (.str "LINECOMMENT000000".toList, .leaf (.str "LINECOMMENT000000".toList)),
+    (.str "a".toList, .leaf (.int 1)),
+    (.str "LINECOMMENT000001".toList, .leaf (.str "LINECOMMENT000001".toList)),
+    (.str "sub".toList, .dict [ (.str "LINECOMMENT000002".toList, .leaf (.str "LINECOMMENT000002".toList)),
+                                (.str "p".toList, .leaf (.str "two words".toList)) ]) ]
+
+theorem exW_sd : hoistPlaceholders (sdOf none exW).data = exWData ∧
+    (sdOf none exW).lineC = [(0, "// first".toList), (1, "// second".toList), (2, "// inner".toList)] ∧
+    (sdOf none exW).blockC = [(0, "/* C++ my header */".toList)] ∧ (sdOf none exW).incl = [] := by decide +kernel
+
+/-- the raw output: one placeholder line per comment -/
+theorem exW_raw : fmtEntries .native 0 exWData = C01.unlines
+    ["BLOCKCOMMENT000000            BLOCKCOMMENT000000;",
+     "LINECOMMENT000000             LINECOMMENT000000;",
+     "a                             1;",
+     "LINECOMMENT000001             LINECOMMENT000001;",
+     "sub",
+     "{",
+     "    LINECOMMENT000002         LINECOMMENT000002;",
+     "    p                         'two words';",
+     "}"] := by
+  simp only [exWData, fmtEntries]
+  decide +kernel
+
+def exWText : Str := C01.unlines
+    ["/* C++ my header */",
+     "// first",
+     "a                             1;",
+     "// second",
+     "sub",
+     "{",
+     "    // inner",
+     "    p                         'two words';",
+     "}"]
+
+/-- the text the writer writes for it, by evaluation: own header first, both top-level line comments and the nested
+    one at their places, the quoted string in the writer's spelling -/
+theorem exW_written : fmtSD .native (denC none exW) = some exWText := by
+  rw [denC_closed exW_hw.toHDoc]
+  obtain ⟨h1, h2, h3, h4⟩ := exW_sd
+  simp only [fmtSD, h1, h2, h3, h4, exW_raw]
+  decide +kernel
+
+theorem exW_own : ownHeaderI exW = true := by decide +kernel
+
+/-- M3 on the example: the evaluated text is an admissible layout of `writtenDoc exW` -/
+theorem exW_layout : ∃ gaps, exWText = spreadC (ctoksItems (writtenDoc exW)) ([] :: gaps) ['\n'] ∧
+    GapsOKC (ctoksItems (writtenDoc exW)) (['\n'] :: gaps) ['\n'] = true := by
+  obtain ⟨gaps, h1, h2⟩ := C12_write_commented exW_hw
+  rw [exW_written] at h1
+  exact ⟨gaps, Option.some.inj h1, h2⟩
+
+/-- M4 on the example: reading the written text gives the meaning of `writtenDoc exW` -/
+theorem exW_roundtrip (dir : Str) : ∃ c', parseNative true dir none exWText = .ok (denC none (writtenDoc exW), c') := by
+  obtain ⟨text, c', h1, h2, _⟩ := C12_roundtrip_commented (c₂ := none) dir exW_hw (Or.inl rfl) (by decide +kernel)
+    (by decide +kernel)
+  rw [exW_written] at h1
+  cases h1
+  exact ⟨c', h2⟩
+
+/-! ## 22. why the hypotheses on the comment texts are there (negative witnesses, by evaluation)
+
+  `first` / `indep` of `HW`: the proved findings `C12.D28_header_inside_subdict` (first block comment not at top level:
+  the default header is glued in front of it, inside the sub-dict) and `C12.D32_second_comment_lost` (a block comment
+  contained in what was written before it is written as the empty text). -/
+
+theorem fmtSD_noIncl (sd : SD) (h : sd.incl = []) :
+    fmtSD .native sd = some (removeTrailingSpaces (insertLineComments sd.lineC
+      (insertBlockComments .native sd.blockC (fmtEntries .native 0 (hoistPlaceholders sd.data))))) := by
+  simp only [fmtSD, h, insertIncludes, List.foldl_nil]
+
+/-- `// note␣␣⏎ a 1;` — a line comment with trailing blanks -/
+def exT : List CItem := [.lineC " note  ".toList, .entry "a".toList (.lit (.bare "1".toList))]
+
+/-- **finding (trailing white space of a comment is not written).**  The reader keeps the comment text `// note␣␣`
+    as it is; the writer's `remove_trailing_spaces` runs over the text *after* the comments have been inserted and
+    cuts the two blanks: the comment is written as `// note`.  Hence `lineTextOK` (and, for the lines of a block
+    comment, `blockTextOK`). -/
+theorem trailing_ws_lost :
+    (denC none exT).lineC = [(0, "// note  ".toList)] ∧
+    fmtSD .native (denC none exT) = some (nativeHeader ++ "// note\na                             1;\n".toList) := by
+  have h : hoistPlaceholders (denC none exT).data =
+        [(.str "LINECOMMENT000000".toList, .leaf (.str "LINECOMMENT000000".toList)), (.str "a".toList, .leaf (.int 1))] ∧
+      (denC none exT).lineC = [(0, "// note  ".toList)] ∧ (denC none exT).blockC = [] ∧ (denC none exT).incl = [] := by
+    decide +kernel
+  refine ⟨h.2.1, ?_⟩
+  rw [fmtSD_noIncl _ h.2.2.2, h.1, h.2.1, h.2.2.1, C12.C12_header_default]
+  have hraw : fmtEntries .native 0
+      [(.str "LINECOMMENT000000".toList, .leaf (.str "LINECOMMENT000000".toList)), (.str "a".toList, .leaf (.int 1))] =
+      "LINECOMMENT000000             LINECOMMENT000000;\na                             1;\n".toList := by
+    simp only [fmtEntries]
+    decide +kernel
+  rw [hraw, C12.nativeHeader_eq]
+  decide +kernel
+
+/-- `// LINECOMMENT000001  LINECOMMENT000001;⏎ // two⏎` — a comment that spells the placeholder entry of the next one -/
+def exP : List CItem := [.lineC " LINECOMMENT000001  LINECOMMENT000001;".toList, .lineC " two".toList]
+
+/-- **why comment texts must not contain placeholder words** (`noPhB`): the insertion passes work on the whole text,
+    comments already inserted included; here the first comment is rewritten by the insertion of the second. -/
+theorem placeholder_in_comment_rewritten :
+    fmtSD .native (denC none exP) = some (nativeHeader ++ "// // two\n// two\n".toList) := by
+  have h : hoistPlaceholders (denC none exP).data =
+        [(.str "LINECOMMENT000000".toList, .leaf (.str "LINECOMMENT000000".toList)),
+         (.str "LINECOMMENT000001".toList, .leaf (.str "LINECOMMENT000001".toList))] ∧
+      (denC none exP).lineC = [(0, "// LINECOMMENT000001  LINECOMMENT000001;".toList), (1, "// two".toList)] ∧
+      (denC none exP).blockC = [] ∧ (denC none exP).incl = [] := by
+    decide +kernel
+  rw [fmtSD_noIncl _ h.2.2.2, h.1, h.2.1, h.2.2.1, C12.C12_header_default]
+  have hraw : fmtEntries .native 0
+      [(.str "LINECOMMENT000000".toList, .leaf (.str "LINECOMMENT000000".toList)),
+       (.str "LINECOMMENT000001".toList, .leaf (.str "LINECOMMENT000001".toList))] =
+      "LINECOMMENT000000             LINECOMMENT000000;\nLINECOMMENT000001             LINECOMMENT000001;\n".toList := by
+    simp only [fmtEntries]
+    decide +kernel
+  rw [hraw, C12.nativeHeader_eq]
+  decide +kernel
 
 end DictIO.C12W
